@@ -92,6 +92,36 @@ def size_convs(tier, rng):
     return cases
 
 
+def discard_convs(tier, rng):
+    """an over-limit chunk (the first of its transaction, or a later one) or DATA message is refused with 552 and the transaction is
+    discarded: RCPT / BDAT LAST / DATA sent afterwards without a new MAIL must not reach the backend"""
+    cases = []
+    for lm, sess in ((0, 0), (1, 0), (1, 1)):
+        hello = b"LHLO x\r\n" if lm else b"EHLO x\r\n"
+        for N in (10, 40):
+            for shape in ("first-chunk", "second-chunk", "data"):
+                for follow in ("rcpt-bdat", "bdat", "data", "rcpt"):
+                    c = g.Conv(dict(lmtp=lm, lmtpsess=sess, maxmsg=N))
+                    c.add(hello, NS="ok"); c.add(b"MAIL FROM:<s@x>\r\n", MAIL="ok"); c.add(b"RCPT TO:<a@x>\r\n", RCPT="ok")
+                    if shape == "first-chunk":
+                        c.add(b"BDAT %d\r\n" % (N + 3) + b"y" * (N + 3))
+                    elif shape == "second-chunk":
+                        c.add(b"BDAT 4\r\nyyyy", DATA=g.ddec(ret="prop"))
+                        c.add(b"BDAT %d LAST\r\n" % N + b"y" * N)
+                    else:
+                        c.add(b"DATA\r\n"); c.add(b"y" * (N + 1) + b"\r\n.\r\n", DATA=g.ddec(ret="prop"))
+                    if "rcpt" in follow:
+                        c.add(b"RCPT TO:<b@x>\r\n", RCPT="ok")
+                    if "bdat" in follow:
+                        c.add(b"BDAT 2 LAST\r\nzz", DATA=g.ddec())
+                    if follow == "data":
+                        c.add(b"DATA\r\n"); c.add(b"NOOP\r\n")
+                    P.markers(c)
+                    for seg in ("one", "line"):
+                        cases.append(c.case(seg=seg, rng=rng) + "\tTAG=discard552")
+    return cases
+
+
 def groups(tier, rng):
     L = 5 if tier == "quick" else 7
     table = dc.step_table([0, 1, 3])
@@ -114,7 +144,8 @@ def groups(tier, rng):
             Group("dr/enumerated-limits", enum, theorems=THEOREMS),
             Group("dr/random-limits", rnd, theorems=THEOREMS),
             Group("conv/data-limits", P.data_convs(tier, rng, limits=(1,)), project=_proj, theorems=THEOREMS),
-            Group("conv/size-and-bdat", size_convs(tier, rng), project=_proj, theorems=THEOREMS)]
+            Group("conv/size-and-bdat", size_convs(tier, rng), project=_proj, theorems=THEOREMS),
+            Group("conv/refused-with-552-is-discarded", discard_convs(tier, rng), project=_proj, theorems=THEOREMS)]
 
 
 def replay_groups(path):
